@@ -1,5 +1,6 @@
 import RjModel.Model.Regex
 import RjModel.Lemmas.BossTraces
+import RjModel.Lemmas.FilteredListing
 import RjModel.Generated.Constants
 /-! # C06 — filters select by whole-path match, last match wins, same on both sides -/
 namespace Rj.C06
@@ -193,5 +194,28 @@ theorem C06_compile_signs (pre post : String) (fs : List String) (out : List Fil
           · simp only [Option.some.injEq] at hx; subst hx; simp_all
           · simp at hx
         | succ j => simpa using h2 j (by simpa using hi) (by simpa using hj)
+
+/-- the verdict of a compiled filter list on a relative component path: `apply_filters` on the `/`-joined path -/
+def keepOf (fs : List (Bool × Re)) (p : FPath) : Bool := applyFilters fs (joinSlash p).toArray
+
+/-- **What the filters exclude is untouched on the destination, what they include is mirrored** — for the verdict function of
+*any* compiled filter list, evaluated the same on both sides (`C06_same_filters`), with the walk not entering an excluded
+folder: the destination half of a sync, on the two trees' own filtered listings, reaches the mirror state at every path the
+walk reaches and leaves every other path below the destination root exactly as it was (given that no folder the plan deletes
+holds an excluded entry: that run fails instead, `C07_hidden_entry_fails_fs`). -/
+theorem C06_excluded_untouched_included_mirrored (fs : List (Bool × Re)) (S D : FS) (rs rd : FPath) (fS fD : Nat)
+    (hS : SrcTreeOk S rs fS) (hD : D.Wf)
+    (hroot : D.get rd = some .folder) (hanc : ∀ k, k < rd.length → D.get (rd.take k) = some .folder)
+    (hclosed : ∀ p, p ≠ [] → D.get (rd ++ p) ≠ none → D.get (rd ++ p.dropLast) = some .folder)
+    (hfuel : ∀ p, D.get (rd ++ p) ≠ none → p.length ≤ fD)
+    (hsafe : ∀ p c n, (p, Node.folder) ∈ planDel (srcOfFS S rs) ((listNodesF (keepOf fs) rd D fD rd).map fun e => (e.1.drop rd.length, e.2)) →
+      D.get (rd ++ (p ++ [c])) = some n → visOf (keepOf fs) (p ++ [c]) = true) :
+    ∃ D', syncDest D rd (srcOfFS S rs) (lsOfFSF (keepOf fs) S rs fS)
+        ((listNodesF (keepOf fs) rd D fD rd).map fun e => (e.1.drop rd.length, e.2)) = .ok D' ∧
+      (∀ p, p ≠ [] → visOf (keepOf fs) p = true → MirrorAt D D' rd p (srcOfFS S rs p)) ∧
+      (∀ p, visOf (keepOf fs) p = false → D'.get (rd ++ p) = D.get (rd ++ p)) := by
+  obtain ⟨D', h1, -, -, h4, h5⟩ := sync_mirror (destWF_of_listNodesF (keepOf fs) D hD rd hroot hanc hclosed fD hfuel)
+    (srcWF_of_treeF (keepOf fs) S rs fS hS) hsafe
+  exact ⟨D', h1, h4, h5⟩
 
 end Rj.C06
